@@ -311,8 +311,7 @@ pub(crate) fn parse_date_part(
         'D' => match chars.len() {
             2 => match string.chars().nth(2) {
                 Some(char) if char.is_ascii_digit() => {
-                    // Using unwrap because it's safe to assume that the string is long enough
-                    let day = pick_part::<u32>(3, string, "day of year").unwrap();
+                    let day = pick_part::<u32>(3, string, "day of year")?;
 
                     Some(ParsedPart {
                         value: day as i64,
@@ -339,8 +338,7 @@ pub(crate) fn parse_date_part(
             _ => match string.chars().nth(1) {
                 Some(char) if char.is_ascii_digit() => match string.chars().nth(2) {
                     Some(char) if char.is_ascii_digit() => {
-                        // Using unwrap because it's safe to assume that the string is long enough
-                        let day = pick_part::<u32>(3, string, "day of year").unwrap();
+                        let day = pick_part::<u32>(3, string, "day of year")?;
 
                         Some(ParsedPart {
                             value: day as i64,
@@ -348,8 +346,7 @@ pub(crate) fn parse_date_part(
                         })
                     }
                     _ => {
-                        // Using unwrap because it's safe to assume that the string is long enough
-                        let day = pick_part::<u32>(2, string, "day of year").unwrap();
+                        let day = pick_part::<u32>(2, string, "day of year")?;
 
                         Some(ParsedPart {
                             value: day as i64,
